@@ -228,6 +228,10 @@ func (bloomFilter *BloomFilter) LookupString(data string) bool {
 
 // BloomPositiveRate returns the false positive error rate of the filter
 func (bloomFilter *BloomFilter) BloomPositiveRate() float64 {
+	if isBitSetMem(bloomFilter.filter) {
+		bloomFilter.lock.Lock()
+		defer bloomFilter.lock.Unlock()
+	}
 	length, _ := bloomFilter.filter.bitCount()
 	return math.Pow(1-math.Exp(-float64(length)/float64(bloomFilter.size)), float64(bloomFilter.numHashes))
 }
@@ -253,6 +257,10 @@ type bloomFilterType struct {
 
 // Export JSON marshals the BloomFilter and returns a byte slice containing the data
 func (bloomFilter *BloomFilter) Export() ([]byte, error) {
+	if isBitSetMem(bloomFilter.filter) {
+		bloomFilter.lock.Lock()
+		defer bloomFilter.lock.Unlock()
+	}
 	_, bitset, err := bloomFilter.filter.marshal()
 	if err != nil {
 		return nil, err
@@ -286,6 +294,10 @@ func (bloomFilter *BloomFilter) Import(data []byte) error {
 // It's not implemented for Redis backed Bloom filter (BitSetRedis) as data for
 // a Redis backed Bloom Filter is already there in Redis.
 func (bloomFilter *BloomFilter) WriteTo(stream io.Writer) (int64, error) {
+	if isBitSetMem(bloomFilter.filter) {
+		bloomFilter.lock.Lock()
+		defer bloomFilter.lock.Unlock()
+	}
 	if !isBitSetMem(bloomFilter.filter) {
 		return 0, fmt.Errorf("stream write doesn't support bitset redis")
 	}
